@@ -323,6 +323,7 @@ func opD3x(level, vec string, nilRecv bool, withFlags bool) string {
 		return out
 	case "T":
 		recv := m3.NewTemporal()
+		vb0 := recv.BaseMetrics() // the view as a caller holds it who asked before anything was decoded
 		if preVec != nil {
 			pre := *preVec
 			preVec = nil         // (the flags below decode with fresh objects)
@@ -350,7 +351,7 @@ func opD3x(level, vec string, nilRecv bool, withFlags bool) string {
 			} else {
 				out += " q2=0"
 			}
-			out += " vq=" + viewsSame(level, d, d2, probeSev3(recv)) + " fq=" + fieldsSame(d, d2)
+			out += " vq=" + andBits(viewsSame(level, d, d2, probeSev3(recv)), sameObj(!nilRecv, vb0 == recv.BaseMetrics())) + " fq=" + fieldsSame(d, d2)
 			if withFlags && r != nil && err == nil {
 				out += flags3(level, d, vec)
 			}
@@ -358,6 +359,7 @@ func opD3x(level, vec string, nilRecv bool, withFlags bool) string {
 		return out
 	case "E":
 		recv := m3.NewEnvironmental()
+		vb0, vt0 := recv.BaseMetrics(), recv.TemporalMetrics() // the views as a caller holds them who asked before anything was decoded
 		if preVec != nil {
 			pre := *preVec
 			preVec = nil         // (the flags below decode with fresh objects)
@@ -385,7 +387,7 @@ func opD3x(level, vec string, nilRecv bool, withFlags bool) string {
 			} else {
 				out += " q2=0"
 			}
-			out += " vq=" + viewsSame(level, d, d2, probeSev3(recv)) + " fq=" + fieldsSame(d, d2)
+			out += " vq=" + andBits(viewsSame(level, d, d2, probeSev3(recv)), sameObj(!nilRecv, vb0 == recv.BaseMetrics(), vt0 == recv.TemporalMetrics())) + " fq=" + fieldsSame(d, d2)
 			if withFlags && r != nil && err == nil {
 				out += flags3(level, d, vec)
 			}
@@ -436,6 +438,7 @@ func opD2x(level, vec string, nilRecv bool, withFlags bool) string {
 		return out
 	case "T":
 		recv := m2.NewTemporal()
+		vb0 := recv.BaseMetrics() // the view as a caller holds it who asked before anything was decoded
 		if preVec != nil {
 			pre := *preVec
 			preVec = nil         // (the flags below decode with fresh objects)
@@ -463,7 +466,7 @@ func opD2x(level, vec string, nilRecv bool, withFlags bool) string {
 			} else {
 				out += " q2=0"
 			}
-			out += " vq=" + viewsSame(level, d, d2, probeSev2(recv)) + " fq=" + fieldsSame(d, d2)
+			out += " vq=" + andBits(viewsSame(level, d, d2, probeSev2(recv)), sameObj(!nilRecv, vb0 == recv.BaseMetrics())) + " fq=" + fieldsSame(d, d2)
 			if withFlags && r != nil && err == nil {
 				out += flags2(level, d, vec)
 			}
@@ -471,6 +474,7 @@ func opD2x(level, vec string, nilRecv bool, withFlags bool) string {
 		return out
 	case "E":
 		recv := m2.NewEnvironmental()
+		vb0, vt0 := recv.BaseMetrics(), recv.TemporalMetrics() // the views as a caller holds them who asked before anything was decoded
 		if preVec != nil {
 			pre := *preVec
 			preVec = nil         // (the flags below decode with fresh objects)
@@ -498,7 +502,7 @@ func opD2x(level, vec string, nilRecv bool, withFlags bool) string {
 			} else {
 				out += " q2=0"
 			}
-			out += " vq=" + viewsSame(level, d, d2, probeSev2(recv)) + " fq=" + fieldsSame(d, d2)
+			out += " vq=" + andBits(viewsSame(level, d, d2, probeSev2(recv)), sameObj(!nilRecv, vb0 == recv.BaseMetrics(), vt0 == recv.TemporalMetrics())) + " fq=" + fieldsSame(d, d2)
 			if withFlags && r != nil && err == nil {
 				out += flags2(level, d, vec)
 			}
@@ -623,6 +627,33 @@ func viewsSame(level, d, d2 string, probe []string) string {
 		}
 	}
 	return r
+}
+
+// sameObj: one bit per lower level: the view handed out before Decode is still the object the higher level works with
+// (a caller who took BaseMetrics() / TemporalMetrics() first and decoded afterwards reads the decoded vector through it)
+func sameObj(applies bool, same ...bool) string {
+	r := ""
+	for _, b := range same {
+		if b || !applies {
+			r += "1"
+		} else {
+			r += "0"
+		}
+	}
+	return r
+}
+
+func andBits(a, b string) string {
+	if len(a) != len(b) {
+		return a
+	}
+	r := []byte(a)
+	for i := range r {
+		if b[i] == '0' {
+			r[i] = '0'
+		}
+	}
+	return string(r)
 }
 
 var lvls = []string{"B", "T", "E"}
